@@ -80,13 +80,21 @@ def _parse_terse(out, names):
 
 
 def run_kani(crate_dir, harnesses, target_dir, jobs=8, harness_timeout=1200, total_timeout=None,
-             mem_gb=32, extra=None, package=None, env=None):
+             mem_gb=32, extra=None, package=None, env=None, playback=False):
     """Run `cargo kani` once for the given harness names (exact, fully qualified or suffix).
     Returns dict name -> HarnessResult (keyed by the names given)."""
     os.makedirs(target_dir, exist_ok=True)
-    cmd = ["cargo", "kani", "--target-dir", target_dir] + KANI_FLAGS + \
-          ["--output-format", "terse", "-j", str(max(1, jobs)),
-           "--harness-timeout", "%ds" % harness_timeout]
+    if playback:
+        # concrete playback is incompatible with --jobs: run sequentially, counterexample values
+        # are printed in the same run (no second solver run needed)
+        cmd = ["cargo", "kani", "--target-dir", target_dir] + KANI_FLAGS + \
+              ["-Z", "concrete-playback", "--concrete-playback=print", "--output-format", "terse",
+               "--harness-timeout", "%ds" % harness_timeout]
+        jobs = 1
+    else:
+        cmd = ["cargo", "kani", "--target-dir", target_dir] + KANI_FLAGS + \
+              ["--output-format", "terse", "-j", str(max(1, jobs)),
+               "--harness-timeout", "%ds" % harness_timeout]
     if package:
         cmd += ["-p", package]
     cmd += ["--exact"]
@@ -123,7 +131,22 @@ def run_kani(crate_dir, harnesses, target_dir, jobs=8, harness_timeout=1200, tot
     return res, wall, out
 
 
-def concrete_values(crate_dir, harness, target_dir, package=None, timeout=1800, env=None, mem_gb=32):
+def values_from_text(out):
+    """Extract the generated playback unit test and its byte vectors from kani output text."""
+    m = re.search(r"```\n?(#\[test\].*?)```", out, re.S)
+    if not m:
+        m = re.search(r"(#\[test\]\s*fn kani_concrete_playback.*?\n}\n)", out, re.S)
+    if not m:
+        return None, None
+    src = m.group(1)
+    vecs = []
+    for vm in re.finditer(r"//\s*(.*)\n\s*vec!\[([^\]]*)\]", src):
+        nums = [int(x) for x in re.findall(r"\d+", vm.group(2))]
+        vecs.append({"value": vm.group(1).strip(), "bytes": nums})
+    return src, vecs
+
+
+def concrete_values(crate_dir, harness, target_dir, package=None, timeout=5400, env=None, mem_gb=32):
     """Re-run one failing harness with concrete playback; return (test_source, list of byte vectors)."""
     cmd = ["cargo", "kani", "--target-dir", target_dir] + KANI_FLAGS + \
           ["-Z", "concrete-playback", "--concrete-playback=print", "--exact", "--harness", harness]
